@@ -68,7 +68,9 @@ func RunSharded(r *Run, n int, workerArgs []string, caseTimeout time.Duration, m
 		workers = n
 	}
 	var mu sync.Mutex
+	reported := map[int]bool{} // cases whose result (or whose failure to return) has been recorded
 	merge := func(res CaseResult) {
+		reported[res.Case] = true
 		for k, v := range res.Counters {
 			r.Add(k, v)
 		}
@@ -141,12 +143,15 @@ func RunSharded(r *Run, n int, workerArgs []string, caseTimeout time.Duration, m
 					cur = -1
 				}
 			case <-timer.C:
+				if cur < 0 {
+					// between two cases (the last one has reported, the next has not started yet): nothing is
+					// stuck; keep listening. Killing the worker here would silently drop the rest of its shard.
+					timer.Reset(caseTimeout)
+					continue
+				}
 				cmd.Process.Kill()
 				cmd.Wait()
-				if cur >= 0 {
-					return cur, curLabel, fmt.Sprintf("no answer within %v", caseTimeout)
-				}
-				return -1, "", ""
+				return cur, curLabel, fmt.Sprintf("no answer within %v", caseTimeout)
 			}
 		}
 	}
@@ -177,6 +182,7 @@ func RunSharded(r *Run, n int, workerArgs []string, caseTimeout time.Duration, m
 				}
 				if confirmed {
 					mu.Lock()
+					reported[stuck] = true
 					onStuck(stuck, label, how)
 					stuckCount++
 					over := stuckCount >= MaxStuck
@@ -197,6 +203,10 @@ func RunSharded(r *Run, n int, workerArgs []string, caseTimeout time.Duration, m
 		}(s)
 	}
 	wg.Wait()
+	if len(reported) != n {
+		// never call a run exhaustive when a case was neither executed nor recorded as not returning
+		r.Capped(fmt.Sprintf("%d of %d cases were not executed (a worker ended early)", n-len(reported), n))
+	}
 }
 
 // runWorkerSingle runs exactly one case in its own worker; returns stuck=true if it did not report.
